@@ -756,3 +756,15 @@ Theorem C05_facts_shape_more :
     "if (newCount <= initCount) { pvRemoveBack((initCount - newCount)) } else { if (newCount <= initCapacity) { decl items = GetItems(); decl index = initCount; try { for (; (index < newCount); ++index) { operator()(itemMultiCreator, (items + index)) } }; SetCount(newCount) } else { decl newCapacity = pvGrowCapacity(initCapacity, newCount, reserve, CXXBoolLiteralExpr); decl itemsCreator = LambdaExpr; Reset(newCapacity, newCount, itemsCreator) } }"]%string.
 Proof. exact FactsProofs.facts_shape_more. Qed.
 Print Assumptions C05_facts_shape_more.
+
+(* Array::Data::Reset runs the items creator on the NEW storage before the old storage is released, and the creator of SetCountCrt constructs the
+   new items (from `item`) before it relocates the old ones: an aliased argument is read while the old buffer is intact (AST facts) *)
+Theorem C05_facts_shape_reset :
+  Gen_ArrayFacts.data_reset_stmts =
+    ["assert((count <= capacity))"; "pvCheckCapacity(capacity)";
+     "if (capacity > internalCapacity) { decl items = pvAllocate(capacity); try { operator()(forward(itemsCreator), items) }; pvDeallocate(); (mItems = items); (mCount = count); (mCapacity = capacity) } else { pvReset(count, forward(itemsCreator)) }"]%string /\
+  Gen_ArrayFacts.pv_grow_lambda = ["Relocate(GetMemManager(), GetItems(), newItems, count)"]%string /\
+  Gen_ArrayFacts.set_count_crt_lambdas =
+    ["decl index = initCount; try { for (; (index < newCount); ++index) { operator()(itemMultiCreator, (newItems + index)) }; Relocate(GetMemManager(), GetItems(), newItems, initCount) }"]%string.
+Proof. exact FactsProofs.facts_shape_reset. Qed.
+Print Assumptions C05_facts_shape_reset.
